@@ -213,3 +213,19 @@ def run(ck):
     xf = P.fn(KT + 'xor_distance')
     ok = any(xf.nodes[j].get('op') == '^' for j in xf.walk()) and len(loops(xf)) == 1
     ck.ob('C07.closest', 'C07.closest/xor', ok, xf.loc(), 'xor_distance is the byte-wise XOR over the whole id')
+
+    # ---- every announcement refreshes the routing entry, and the bucket is purged of expired contacts before anything else ---------
+    from sa.paths import Cfg as _Cfg7, must_precede as _mp7
+    ac7 = P.fn(KT + 'add_contact')
+    ck.touch(ac7)
+    ub_calls = [i for i in ac7.walk() if ac7.nodes[i].get('callee') == KT + 'upsert_bucket']
+    cfg_ac = _Cfg7.of(ac7)
+    wit7 = cfg_ac.must_pass_from((cfg_ac.entry, -1), lambda e, s_=set(ub_calls): e in s_ or any(ac7.is_in(x, e) for x in s_) and ac7.nodes[e]['k'] == 'ExprWithCleanups') if ub_calls else ['no call']
+    ck.ob('C07.bucket', 'C07.bucket/announce-always-refreshes', wit7 is None, ac7.loc(),
+          'every add_contact goes through upsert_bucket (a re-announcement renews the routing entry\'s lease)', wit7)
+    purge = [i for i in ub.walk() if (ub.nodes[i].get('callee') or '').endswith('::erase') and any(ub.nodes[j].get('callee') == 'std::remove_if' for j in ub.walk(i))]
+    pops = [i for i in ub.walk() if (ub.nodes[i].get('callee') or '').split('::')[-1] in ('pop_front', 'push_back', 'emplace_back')]
+    bad7 = _mp7(ub, pops, lambda e: e in purge or any(ub.is_in(x, e) for x in purge) and ub.nodes[e]['k'] == 'ExprWithCleanups') if purge else [('none', ['no purge of expired contacts'])]
+    ck.ob('C07.bucket', 'C07.bucket/purge-before-insert-or-evict', not bad7, ub.loc(purge[0]) if purge else ub.loc(),
+          'upsert_bucket removes every expired contact of the bucket (erase(remove_if(expired))) before it inserts or evicts (a live contact is never '
+          'evicted while an expired one sits further back)', bad7[0][1] if bad7 else None)
